@@ -9,7 +9,27 @@ klass(f"{M}:HeaderExtensions", fields={
     "transmission_offset": "opt[int]", "transport_sequence_number": "opt[int]"})
 klass(f"{M}:HeaderExtensionsMap", fields={"_HeaderExtensionsMap__ids": "HeaderExtensionsIds"})
 # the id table is a HeaderExtensions instance whose fields hold ids (ints), not values
-klass(f"{M}:HeaderExtensionsIds", fields={})
+klass(f"{M}:HeaderExtensionsIds", fields={
+    "abs_send_time": "opt[int]", "audio_level": "opt[int]", "mid": "opt[int]", "repaired_rtp_stream_id": "opt[int]",
+    "rtp_stream_id": "opt[int]", "transmission_offset": "opt[int]", "transport_sequence_number": "opt[int]"})
+
+# C05: whatever the header-extension block of a received RTP packet contains, decoding it raises ValueError at most
+# (UnicodeDecodeError is a ValueError); _handle_rtp_data catches exactly that
+contract(f"{M}:HeaderExtensionsMap.get", params={"extension_profile": "int", "extension_value": "bytes"},
+         returns="HeaderExtensions",
+         raises={"ValueError": None},
+         ensures=["fresh(result)"],
+         locals={"values": "HeaderExtensions"},
+         loops={0: dict(kind="for", index="i", invariant=["fresh(values)"])},
+         fresh_result=True, tags=["C05"],
+         witness=[{"self": {"$class": "HeaderExtensionsMap", "_HeaderExtensionsMap__ids": {"$class": "HeaderExtensionsIds"}},
+                   "extension_profile": 0xBEDE, "extension_value": bytes.fromhex("900102030000")}] +
+                 # a fixed-size extension carried with another length (the F-4 inputs) and with its own length
+                 [{"self": {"$class": "HeaderExtensionsMap", "_HeaderExtensionsMap__ids": {
+                       "$class": "HeaderExtensionsIds", "abs_send_time": 1, "transmission_offset": 2, "audio_level": 3,
+                       "transport_sequence_number": 4, "mid": 5}},
+                   "extension_profile": 0xBEDE, "extension_value": bytes.fromhex(v)}
+                  for v in ("10aa0000", "20aa0000", "31aabb00", "40aa0000", "12aabbcc", "30aa0000", "5061")])
 
 contract(f"{M}:unpack_header_extensions",
          params={"extension_profile": "int", "extension_value": "bytes"},
